@@ -37,6 +37,12 @@ var properties = map[string]Property{}
 
 func RegisterProperty(p Property) { properties[p.ID()] = p }
 
+// Sweeper is implemented by properties that enumerate single faults around a base
+// plan (thorough tier): every truncation / reset offset of the op's in-flight body.
+type Sweeper interface {
+	Sweep(base *Plan, k *Kernel) []*Plan
+}
+
 // Coverage accumulates what a runner process explored.
 type Coverage struct {
 	Tuples        map[string]int `json:"tuples"`
@@ -79,6 +85,7 @@ type Result struct {
 	ILHashes      []string          `json:"il_hashes,omitempty"`
 	Samples       []json.RawMessage `json:"samples,omitempty"`
 	StepCaps      int               `json:"step_caps,omitempty"`
+	SweepRuns     int               `json:"sweep_runs,omitempty"`
 	HarnessErrors []string          `json:"harness_errors,omitempty"`
 	WallMs        int64             `json:"wall_ms"`
 	LogHashes     []string          `json:"log_hashes,omitempty"` // determinism witness (per run, in order)
@@ -212,6 +219,9 @@ func Main(t *testing.T) {
 
 	sampleEvery := envInt("VERIF_SAMPLE_EVERY", 50)
 	wantHashes := os.Getenv("VERIF_LOGHASHES") != ""
+	sweepOn := os.Getenv("VERIF_SWEEP") != ""
+	maxSweeps := envInt("VERIF_SWEEP_MAX", 40)
+	sweeps := 0
 	// rapid.Check fails the test on a violation and shrinks the plan; the last
 	// failing execution is the minimal one, so r.last ends up holding it.
 	defer func() {
@@ -230,6 +240,28 @@ func Main(t *testing.T) {
 		if len(r.res.Samples) < 3 && r.res.Runs%sampleEvery == 1 {
 			b, _ := json.Marshal(p)
 			r.res.Samples = append(r.res.Samples, b)
+		}
+		if v == nil && sweepOn && len(k.Panics) == 0 {
+			if sw, ok := prop.(Sweeper); ok && (sweeps < maxSweeps || r.last != nil) {
+				plans := sw.Sweep(p, k)
+				if len(plans) > 0 {
+					sweeps++
+				}
+				for _, sp := range plans {
+					sp.Prop, sp.World, sp.Mode = propID, worldName, mode
+					k2, v2 := r.execute(sp, false)
+					r.res.SweepRuns++
+					if v2 != nil && !r.known[v2.Signature] {
+						p, k, v = sp, k2, v2
+						break
+					} else if v2 != nil {
+						r.res.KnownHits[v2.Signature]++
+						if r.res.KnownSamples[v2.Signature] == nil {
+							r.res.KnownSamples[v2.Signature] = &FoundViolation{Violation: *v2, Plan: sp, LogHash: k2.LogHash(), Known: true}
+						}
+					}
+				}
+			}
 		}
 		if v == nil {
 			return
